@@ -95,19 +95,6 @@ def class_items(body):
     return items
 
 
-def outside_model(p):
-    """CPython re-reads a `!` that follows leading empty ranges of a class (`[b-a!x]`) as a
-    negation; the Lean matcher does not mirror that corner (oracle only for such patterns)."""
-    for t in pat_tokens(p):
-        if isinstance(t, tuple) and t[0] == "cls" and not t[1]:
-            it = class_items(t[2])
-            while it and it[0][0] > it[0][1]:
-                it = it[1:]
-            if it and it[0][0] == "!":
-                return True
-    return False
-
-
 FILL = "xyab1c.d/"
 
 
@@ -438,7 +425,9 @@ PLAIN_PATTERNS = ["*.a", "*.b", None, "x.*", "?.a", "x.a", "*", "", "*.A", "x*y.
 # character classes: set, negated set, range, `]` / `-` as members, unclosed `[` (a literal),
 # bracketed literal file names, empty range, negated empty range, `^` / `[` as first member
 CLASS_PATTERNS = ["*.[ab]", "*.[ch]dr", "r[1].b", "x[0-9].a", "[!x]*.a", "?[!a-c].b", "[]x].a", "x[.a", "*.[a-",
-                  "x[a-].b", "x[z-a].a", "x[!z-a].a", "[^x].a", "[[]x.a", "*.[!]", "x[!]].a", "[a-b-d].a"]
+                  "x[a-].b", "x[z-a].a", "x[!z-a].a", "[^x].a", "[[]x.a", "*.[!]", "x[!]].a", "[a-b-d].a",
+                  # leading empty ranges followed by `!`: CPython reads a negated class
+                  "[b-a!x].a", "x[b-a!-y-z].b"]
 WIDE_PATTERNS = PLAIN_PATTERNS + CLASS_PATTERNS
 WIDE_FILES = ["x.a", "y.b", "z.c", "*.a", "xy.a", "x.A", "xzzy.a", "", "x.", "ab.b", "x.a.b", "a.cdr", "r1.b", "x5.a",
               "[.a", "x[.a", "r[2].b", "-.a", "d.a",
@@ -451,7 +440,7 @@ GEP_SMALL = [[200, "any", "dot"], [201, "Ep", "Java"]]
 
 
 ODD_PATTERNS = ["", "*", "?", None, "a b", "*.*", "[", "]", "[]", "[!]", "[]]", "[!]]", "[a-", "[-]", "[!-]", "[*]", "[?]",
-                "[b-a!x]", "**", "[a][b]", "[ ]"]
+                "[b-a!x]", "[b-a!]", "[b-a!-x-z]", "[b-ad-c!x]", "[b-a!--a]", "**", "[a][b]", "[ ]"]
 
 
 def lang_universe(bases, patterns, files, ep_names, kinds=("f", 51)):
@@ -576,7 +565,13 @@ class Prop(Check):
         "Reg.C26_gen_entrypoints_survive_clear",
         "Reg.C26_for_file_exact",
         "Reg.C26_language_for_file_unique",
+        "Reg.C26_cache_hit_until",
         "Reg.C26_cache_hit",
+        "Reg.C26_cache_hit_file",
+        "Reg.C26_mm_for_file",
+        "Reg.C26_mm_for_file_history",
+        "Reg.C26_cache_fresh_file",
+        "Reg.C26_mms_for_file",
         "Reg.C26_cache_fresh",
         "Reg.C26_cache_instance",
         "Reg.C26_cache_not_stale",
@@ -610,8 +605,8 @@ class Prop(Check):
         "installed packages register pairwise distinct (case-folded) language names and (language, target) pairs "
         "(Env.Ok); with clashing entry points the first API call raises and the registry stays partially loaded "
         "(mirrored by the model, outside the property)",
-        "a class whose text starts with an empty range followed by '!' (`[b-a!x]`, re-read as a negation by CPython) "
-        "is checked by the oracle only, not sent to the model (the theorems are independent of the matcher)",
+        "Reg.fnMatch mirrors fnmatch.translate of CPython 3.12 including its re-reading of '!' after leading empty "
+        "ranges of a class (`[b-a!x]` = `[!x]`); the theorems are independent of the matcher (any Env.fnm)",
         "fnmatch.fnmatch is case-sensitive (POSIX normcase)",
     ]
 
@@ -921,6 +916,7 @@ class Prop(Check):
             raise ValueError(f"bad op {op}")
 
         res = []
+        final = {}
         try:
             alts = case.get("alt") or [0] * len(case["ops"])
             for op, alt in zip(case["ops"], alts):
@@ -934,10 +930,21 @@ class Prop(Check):
                     raise
                 except Exception as e:  # any other exception class is an observation
                     res.append(["other", type(e).__name__])
+            # the registry content when the history is over (compared with `Reg.live` / `Reg.gLive`,
+            # the history-level notion the theorems are stated in)
+            try:
+                final["langs"] = [desc_view(d)[0] for d in reg.language_descriptions().values()]
+            except Exception as e:
+                final["langs"] = ["raised", type(e).__name__]
+            try:
+                final["gens"] = [gen_view(g, False) for d in reg.generator_descriptions().values() for g in d.values()]
+            except Exception as e:
+                final["gens"] = ["raised", type(e).__name__]
         finally:
             reg.entry_points = saved
             reg.languages, reg.generators, reg.metamodels = None, None, {}
         obs["res"] = res
+        obs["final"] = final
         return obs
 
     # ------------------------------------------------------ model / compare
@@ -951,13 +958,8 @@ class Prop(Check):
         return all(s is None or (isinstance(s, str) and s.isascii())
                    for x in list(case["ops"]) + list(eps) + list(geps) for s in x if not isinstance(s, (int, bool)))
 
-    def patterns_modelled(self, case, obs):
-        eps, _ = self.env_of(case, obs)
-        pats = [d[2] for d in eps] + [op[3] for op in case["ops"] if op[0] == "reg_lang"]
-        return not any(isinstance(p, str) and outside_model(p) for p in pats)
-
     def model_req(self, case, obs):
-        if not self.ascii_only(case, obs) or not self.patterns_modelled(case, obs):
+        if not self.ascii_only(case, obs):
             return None
         eps, geps = self.env_of(case, obs)
         if not Ref(eps, geps).ok_env:
@@ -1005,6 +1007,74 @@ class Prop(Check):
         for i, (x, y) in enumerate(zip(a, b)):
             if x != y:
                 return f"call #{i} {case['ops'][i]}: implementation {x}, model {y}"
+        return self.compare_predictions(case, obs, out)
+
+    def compare_predictions(self, case, obs, out):
+        """The history-level notions of the theorems (`live`, `gLive`, `UniqueMatch`, `sparesAll`), computed
+        by the driver from the history alone, against what the real module did."""
+        if "live" not in out:
+            return "driver answered without history-level predictions"
+        res = obs["res"]
+        fin = obs.get("final") or {}
+        if "langs" in fin and sorted(map(str, fin["langs"])) != sorted(map(str, out["live"])):
+            return f"registered languages after the history: implementation {sorted(map(str, fin['langs']))}, live (Lean) {sorted(map(str, out['live']))}"
+        if "gens" in fin and sorted(map(str, fin["gens"])) != sorted(map(str, out["glive"])):
+            return f"registered generators after the history: implementation {sorted(map(str, fin['gens']))}, gLive (Lean) {sorted(map(str, out['glive']))}"
+        eps, _ = self.env_of(case, obs)
+        kind = {d[0]: d[3] for d in eps}
+        for op in case["ops"]:
+            if op[0] == "reg_lang":
+                kind[op[1]] = op[4]
+
+        def owned(uid, m):
+            k = kind.get(uid)
+            if m[0] == "made":
+                return k == "f" and m[2] == uid
+            return m[0] == "given" and m[1] == k
+        for j, i in out["hits"]:
+            if res[j][0] == "mm" and res[i] != res[j]:
+                return (f"C26_cache_hit_until: call #{j} {case['ops'][j]} answered {res[j]} and the calls in between spare "
+                        f"that entry, but the argument-less call #{i} {case['ops'][i]} answered {res[i]}")
+        def single(i, uid, thm, what):
+            """a single-language request (by name or by file) resolved by the history to descriptor uid"""
+            op = case["ops"][i]
+            if uid is None:
+                if res[i] != ["reg_error"]:
+                    return f"{thm}: {what}, call #{i} {op} answered {res[i]}"
+                return None
+            if res[i][0] == "mm":
+                m = res[i][1]
+                if not owned(uid, m):
+                    return f"{thm}: call #{i} {op} resolves to descriptor {uid}, answered {res[i]} (not that language's)"
+                if op[-1] != 0 and m[0] == "made":
+                    earlier = [x for r in res[:i] if r[0] in ("mm", "mms") for x in ([r[1]] if r[0] == "mm" else r[1])]
+                    if m[3] != op[-1] or any(x[0] == "made" and x[1] == m[1] for x in earlier):
+                        return (f"C26_cache_fresh: call #{i} {op} carries keyword arguments for the factory language {uid}, "
+                                f"answered {res[i]} (not fresh from these arguments)")
+            elif res[i][0] not in ("reg_error", "type_error", "other") or kind.get(uid) in ("f",) or isinstance(kind.get(uid), int):
+                return f"{thm}: call #{i} {op} resolves to the usable descriptor {uid}, answered {res[i]}"
+            return None
+        for i, uid in out["um"]:
+            f = single(i, uid, "C26_mm_for_file", f"no unique live language accepts {case['ops'][i][1]!r}")
+            if f:
+                return f
+        for i, uid in out["own"]:
+            f = single(i, uid, "C26_cache_not_stale", f"no live language is named {case['ops'][i][1]!r} up to case")
+            if f:
+                return f
+        for i, uids in out["mms"]:
+            usable = all(kind.get(u) not in ("b", "n") for u in uids)
+            if usable != (res[i][0] == "mms"):
+                return f"C26_mms_for_file: matching descriptors {uids} (all usable: {usable}), call #{i} answered {res[i]}"
+            if res[i][0] == "mms":
+                rest = [list(m) for m in res[i][1]]
+                if len(rest) != len(uids):
+                    return f"C26_mms_for_file: {len(uids)} live languages accept the file, call #{i} answered {res[i]}"
+                for u in uids:
+                    cand = [m for m in rest if owned(u, m)]
+                    if not cand:
+                        return f"C26_mms_for_file: no meta-model of descriptor {u} in the answer of call #{i}: {res[i]}"
+                    rest.remove(cand[0])
         return None
 
     # -------------------------------------------------------------- oracle
@@ -1064,7 +1134,20 @@ class Prop(Check):
                 ref, _ = self.ref_pass(c, o)
                 for f in ref.features:
                     feats[f] = feats.get(f, 0) + 1
+        pred = {"histories": 0, "cache_hit_pairs": 0, "cache_hit_pairs_with_kwargs_call_between": 0,
+                "mm_file_resolved": 0, "mm_file_unresolved": 0, "mms_file": 0}
+        for c, mo in zip(cases, model_outs or []):
+            if isinstance(mo, dict) and "hits" in mo:
+                pred["histories"] += 1
+                pred["cache_hit_pairs"] += len(mo["hits"])
+                for j, i in mo["hits"]:
+                    if any(o[0] in ("mm", "mm_file") and o[-1] != 0 for o in c["ops"][j + 1:i]):
+                        pred["cache_hit_pairs_with_kwargs_call_between"] += 1
+                pred["mm_file_resolved"] += sum(1 for _, u in mo["um"] if u is not None)
+                pred["mm_file_unresolved"] += sum(1 for _, u in mo["um"] if u is None)
+                pred["mms_file"] += len(mo["mms"])
         return {
+            "history_level_predictions": pred,
             "distribution": dist,
             "api_calls": calls,
             "calls_raising": errs,
